@@ -372,6 +372,23 @@ func main() {
 				}
 			})
 		})
+		r.Phase("reconfiguration: a reversed comparator is installed as sem.ComparePreRelease, every pair of pre-releases of length <= 3 is compared, the default is restored and the same pairs are judged against section 11", "complete", func() {
+			sem.ComparePreRelease = func(x, y string) int { return -sem.DefaultComparePreRelease(x, y) }
+			r.Parallel(int64(len(U3)), 1, func(w *mc.W, i int64) {
+				for j := range U3 {
+					_ = sem.New(1, 2, 3, U3[i], "b1").Compare(sem.New(1, 2, 3, U3[j]))
+					_, _ = sem.Compare("1.0.0-"+U3[i], "1.0.0-"+U3[j])
+				}
+			})
+			reset()
+			r.Parallel(int64(len(U3)), 1, func(w *mc.W, i int64) {
+				for j := range U3 {
+					cnt(w, U3[i], U3[j])
+					pPre.Do(w, pairArg{A: U3[i], B: U3[j]})
+					pHelp.Do(w, pairArg{A: U3[i], B: U3[j]})
+				}
+			})
+		})
 		chain := []string{"alpha", "alpha.1", "alpha.beta", "beta", "beta.2", "beta.11", "rc.1", ""}
 		nums := []uint64{0, 1, 9, 10, 18446744073709551614, 18446744073709551615}
 		pres := []string{"", "alpha", "1"}
